@@ -120,10 +120,26 @@ def d_arg(c09, rng, tgt, stats, bad):
     return ("i", v)
 
 
+def d_boundary(rng, tgt):
+    """a value at the limits of the word width (negative ones only where the target's type is signed)"""
+    w = tgt["bits"]
+    lo, hi = -(1 << (w - 1)), (1 << w) - 1
+    pool = [hi, hi - 1, (1 << (w - 1)) - 1, 1 << (w - 1), 0]
+    if tgt["typ"] not in UNSIGNED_TYPES:
+        pool += [lo, lo, -1, -1, lo + 1, -2]
+    return rng.choice(pool)
+
+
 def d_stmt(c09, rng, tgt, stats):
     n = rng.choice([1, 2, 2, 3, 3, 4, 5, 6])
     bad = rng.random() < 0.08
     args = [d_arg(c09, rng, tgt, stats, bad) for _ in range(n)]
+    if not bad and rng.random() < 0.2:
+        # lane sweep: a boundary value at a chosen argument position (behind / in front of strings of odd and even length,
+        # first / last word of the statement), the neighbours stay random
+        p = rng.randrange(n)
+        args[p] = ("i", d_boundary(rng, tgt))
+        stats["d:sweep_%s_at_%s" % ("neg" if args[p][1] < 0 else "nonneg", "first" if p == 0 else "last" if p == n - 1 else "inner")] += 1
     strs = [a for a in args if a[0] in ("s", "c")]
     if len(strs) >= 2:
         stats["d:stmt_several_strings"] += 1
